@@ -234,6 +234,34 @@ class Session:
             self.outcomes.append(codes)
             self.downloads.append([verb, arg, b"", "aborted"])
             return self.alive
+        if kind == "xfer_stall":
+            # a download of a file larger than every buffer; the peer reads a little and then stops reading (it keeps the data
+            # connection open): whatever completion reply the server has is collected, then the peer waits `linger` seconds
+            verb, arg, nread, linger = st[1], st[2], st[3], (st[4] if len(st) > 4 else 0)
+            if self.data is None:
+                try:
+                    self.data = await p.open_data(self.pasv_port)
+                except OSError:
+                    self.outcomes.append(["REFUSED"])
+                    return True
+            r1 = await p.cmd(f"{verb} {arg}")
+            codes = self._codes(r1)
+            if self._dead(r1):
+                self.outcomes.append(codes)
+                return False
+            dr, dw = self.data
+            if r1.code.startswith("1"):
+                await p.read_data(dr, wait=10, limit=nread)
+                r2 = await p.read_reply()
+                codes += self._codes(r2)
+                self._dead(r2)
+                if linger:
+                    await asyncio.sleep(linger)
+            dw.close()
+            self.data = None
+            self.outcomes.append(codes)
+            self.downloads.append([verb, arg, b"", "stalled"])
+            return self.alive
         if kind == "cut_then_data":
             # the control connection vanishes and, i loop iterations later, the data
             # connection the peer had already started arrives at the passive listener
